@@ -200,26 +200,29 @@ Proof.
   destruct (mem g (r_handed r) && negb (r_released r)); auto.
 Qed.
 
+Ltac mono_fin := cbn [fst]; split; intros; auto; try congruence.
+
 Lemma apply_cmd_mono (r : rstate W) (c : cmd W B) :
   (r_released r = true -> r_released (fst (apply_cmd imm r c)) = true)
   /\ (r_outer r = false -> r_outer (fst (apply_cmd imm r c)) = false).
 Proof.
   destruct c; cbn [apply_cmd].
-  - destruct (r_outer r); auto.
-  - destruct (r_outer r) eqn:Eo; [|auto]. split; [|discriminate].
-    destruct (imm g); [|auto].
+  - destruct (r_outer r) eqn:Eo; mono_fin.
+  - destruct (r_outer r) eqn:Eo; [|mono_fin]. split; [|congruence].
+    destruct (imm g); [|cbn; auto].
     match goal with |- context [sub_win ?r1 g] =>
       destruct (sub_win_mono r1 g) as (Ha & _); destruct (sub_win r1 g) as [r2 o] end.
     cbn [fst] in *. cbn in Ha. rewrite Ha. auto.
-  - destruct (wterm_of g (r_wterm r)); [auto|]. destruct (is_terminal e); [|auto].
+  - destruct (wterm_of g (r_wterm r)); [mono_fin|].
+    destruct (is_terminal e); [|mono_fin].
     match goal with |- context [maybe_release ?r1] =>
       destruct (maybe_release_mono r1) as [Ha Hb]; destruct (maybe_release r1) as [r2 o2] end.
-    cbn [fst] in *. destruct r; cbn in *. auto.
-  - destruct (r_released r) eqn:E; [auto|]. destruct r; cbn in *. auto.
-  - destruct (mem k (r_live r)); [|auto]. destruct r; cbn in *. auto.
-  - destruct (r_released r) eqn:E; [auto|]. destruct r; cbn in *. auto.
-  - destruct (mem tag (r_timers r)); [|auto]. destruct r; cbn in *. auto.
-  - auto.
+    cbn [fst] in *. destruct r; cbn in *. split; auto.
+  - destruct (r_released r) eqn:E; [mono_fin|]. destruct r; cbn in *. split; auto.
+  - destruct (mem k (r_live r)); [|mono_fin]. destruct r; cbn in *. split; auto.
+  - destruct (r_released r) eqn:E; [mono_fin|]. destruct r; cbn in *. split; auto.
+  - destruct (mem tag (r_timers r)); [|mono_fin]. destruct r; cbn in *. split; auto.
+  - mono_fin.
 Qed.
 
 Lemma apply_cmds_mono (cs : list (cmd W B)) : forall r,
@@ -258,8 +261,7 @@ Proof.
   destruct (apply_cmds_mono cs r) as [Ha Hb]. destruct (apply_cmds imm r cs) as [r1 o1]. cbn [fst] in *.
   destruct (finish_mono r1 f) as [Hc Hd]. destruct (finish r1 f) as [r2 o2]. cbn [fst] in *.
   destruct i as [k e|tag| | |]; cbn [fst snd]; auto.
-  destruct (is_terminal e && mem k (r_live r2)); cbn [fst snd]; auto.
-  destruct r2; cbn in *. auto.
+  all: try (destruct (is_terminal e && mem k (r_live r2)); cbn [fst snd]; auto; destruct r2; cbn in *; auto).
 Qed.
 
 Lemma rstep_mono s (r : rstate W) now i :
@@ -395,10 +397,13 @@ Qed.
 Lemma mem_app_l k l j : mem k l = true -> mem k (l ++ [j]) = true.
 Proof. unfold Multi.mem. intros H. rewrite existsb_app, H. reflexivity. Qed.
 
+Lemma remove_cons k j (t : list nat) : remove k (j :: t) = if Nat.eqb k j then t else j :: remove k t.
+Proof. reflexivity. Qed.
+
 Lemma mem_remove_other k j l : j <> k -> mem k l = true -> mem k (remove j l) = true.
 Proof.
   intros Hne. unfold Multi.mem. induction l as [|x t IH]; intros H; [discriminate|].
-  cbn [Multi.remove]. destruct (Nat.eqb_spec j x) as [->|Hx].
+  rewrite remove_cons. destruct (Nat.eqb_spec j x) as [->|Hx].
   - cbn [existsb] in H. destruct (Nat.eqb_spec k x) as [->|]; [congruence|exact H].
   - cbn [existsb] in *. destruct (Nat.eqb k x); [reflexivity|]. apply IH. exact H.
 Qed.
@@ -571,4 +576,189 @@ Proof.
       destruct (Nat.eqb_spec j g) as [->|Hne]; [apply wobs_repeat_same|apply wobs_repeat_other; exact Hne].
     + cbn [snd]. destruct (Nat.eqb_spec j g) as [->|Hne]; [apply wobs_repeat_same|apply wobs_repeat_other; exact Hne].
 Qed.
+
+(* ------------------------------------------------------------- unfolding -- *)
+Lemma apply_cmds_app (a b : list (cmd W B)) : forall r,
+  apply_cmds imm r (a ++ b)
+  = (fst (apply_cmds imm (fst (apply_cmds imm r a)) b),
+     snd (apply_cmds imm r a) ++ snd (apply_cmds imm (fst (apply_cmds imm r a)) b)).
+Proof.
+  induction a as [|c t IH]; intros r.
+  - cbn. destruct (apply_cmds imm r b); reflexivity.
+  - cbn [app apply_cmds]. destruct (apply_cmd imm r c) as [r1 o1]. rewrite IH.
+    destruct (apply_cmds imm r1 t) as [r2 o2]. cbn [fst snd].
+    destruct (apply_cmds imm r2 b) as [r3 o3]. cbn [fst snd]. now rewrite app_assoc.
+Qed.
+
+(* `for s in queue: s.on_next(x)` when every window of the queue is live and
+   has exactly one subscriber *)
+Lemma apply_cmds_wins_next (q : list nat) (x : W) (r : rstate W) :
+  (forall g, In g q -> wterm_of g (r_wterm r) = None /\ count_of g (r_wsubs r) = 1%nat) ->
+  apply_cmds (B:=B) imm r (map (fun g => CWin g (Next x)) q) = (r, map (fun g => OWin g (Next x)) q).
+Proof.
+  induction q as [|g t IH]; intros H; [reflexivity|]. cbn [map apply_cmds apply_cmd].
+  destruct (H g (or_introl eq_refl)) as [H1 H2]. rewrite H1, H2. cbn [is_terminal repeat].
+  rewrite IH by (intros j Hj; apply H; right; exact Hj). reflexivity.
+Qed.
+
+Lemma wterm_of_app g (l1 l2 : list (nat * ev W)) :
+  wterm_of g (l1 ++ l2) = match wterm_of g l1 with Some e => Some e | None => wterm_of g l2 end.
+Proof. induction l1 as [|[j e] t IH]; [reflexivity|]. cbn. destruct (Nat.eqb g j); auto. Qed.
+
+Lemma count_of_filter_other g j (l : list nat) : g <> j ->
+  count_of g (filter (fun x => negb (Nat.eqb j x)) l) = count_of g l.
+Proof.
+  intros Hne. unfold count_of. induction l as [|x t IH]; [reflexivity|]. cbn [filter].
+  destruct (Nat.eqb_spec j x) as [->|Hx]; cbn [negb filter].
+  - destruct (Nat.eqb_spec g x); [congruence|exact IH].
+  - destruct (Nat.eqb g x); cbn [length]; rewrite IH; reflexivity.
+Qed.
+
+Lemma wobs_map_win k (q : list nat) (e : ev W) : NoDup q ->
+  wobs k (map (fun g => @OWin W B g e) q) = if mem k q then [e] else [].
+Proof.
+  unfold Multi.mem. induction 1 as [|g t Hg Ht IH]; [reflexivity|]. cbn [map wobs flat_map existsb].
+  fold (wobs k (map (fun g => @OWin W B g e) t)). rewrite IH.
+  destruct (Nat.eqb_spec k g) as [->|Hne]; cbn [orb app]; [|reflexivity].
+  assert (E : existsb (Nat.eqb g) t = false).
+  { destruct (existsb (Nat.eqb g) t) eqn:Ex; [|reflexivity]. apply existsb_exists in Ex.
+    destruct Ex as [y [Hy Hy2]]. apply Nat.eqb_eq in Hy2. subst y. contradiction. }
+  rewrite E. reflexivity.
+Qed.
+
+(* `for s in queue: s.on_completed()/on_error(e)` while the outer is live: every
+   window of the queue, having one subscriber each, sees the terminal once *)
+Lemma apply_cmds_wins_term k (e : ev W) (q : list nat) : is_terminal e = true -> NoDup q -> forall r : rstate W,
+  r_outer r = true ->
+  (forall g, In g q -> wterm_of g (r_wterm r) = None /\ count_of g (r_wsubs r) = 1%nat) ->
+  wobs k (snd (apply_cmds (B:=B) imm r (map (fun g => CWin g e) q))) = (if mem k q then [e] else [])
+  /\ r_outer (fst (apply_cmds (B:=B) imm r (map (fun g => CWin g e) q))) = true.
+Proof.
+  intros He. induction 1 as [|g t Hg Ht IH]; intros r Ho H; [split; [reflexivity|exact Ho]|].
+  cbn [map apply_cmds apply_cmd]. destruct (H g (or_introl eq_refl)) as [H1 H2]. rewrite H1, H2, He.
+  unfold maybe_release. cbn [r_outer]. rewrite Ho. cbn [negb andb repeat app].
+  match goal with |- context [apply_cmds imm ?r1 _] => specialize (IH r1) end.
+  destruct IH as [IH1 IH2]; [reflexivity| |].
+  { intros j Hj. destruct (H j (or_intror Hj)) as [Ha Hb]. cbn [r_wterm r_wsubs].
+    assert (Hne : j <> g) by (intros ->; contradiction).
+    rewrite wterm_of_app, Ha. cbn [wterm_of]. destruct (Nat.eqb_spec j g); [congruence|].
+    rewrite count_of_filter_other by exact Hne. auto. }
+  match goal with |- context [apply_cmds imm ?r1 ?cs] => destruct (apply_cmds imm r1 cs) as [r2 o2] end.
+  cbn [fst snd] in *. split; [|exact IH2].
+  cbn [wobs flat_map app]. fold (wobs k o2). rewrite IH1. unfold Multi.mem. cbn [existsb].
+  destruct (Nat.eqb_spec k g) as [->|Hne]; cbn [orb app]; [|reflexivity].
+  assert (E : existsb (Nat.eqb g) t = false).
+  { destruct (existsb (Nat.eqb g) t) eqn:Ex; [|reflexivity]. apply existsb_exists in Ex.
+    destruct Ex as [y [Hy Hy2]]. apply Nat.eqb_eq in Hy2. subst y. contradiction. }
+  rewrite E. reflexivity.
+Qed.
+
+Lemma wobs_finish g (r : rstate W) f : wobs g (snd (@finish W B r f)) = [].
+Proof.
+  destruct f; cbn [finish]; [reflexivity| |]; (destruct (r_outer r); [|reflexivity]);
+    unfold end_outer;
+    match goal with |- context [maybe_release ?r1] =>
+      pose proof (wobs_release g r1) as Hm; destruct (maybe_release r1) as [r2 o2] end;
+    cbn [snd wobs flat_map app] in *; exact Hm.
+Qed.
+
+(* hands in an observation list *)
+Definition hobs (o : list (obs W B)) : list (nat * Z) :=
+  flat_map (fun x => match x with OHand g key => [(g, key)] | _ => [] end) o.
+Lemma hobs_app a b : hobs (a ++ b) = hobs a ++ hobs b.
+Proof. unfold hobs. apply flat_map_app. Qed.
+Lemma hobs_repeat g (e : ev W) n : hobs (repeat (OWin g e) n) = [].
+Proof. induction n; auto. Qed.
+Lemma hobs_release (r : rstate W) : hobs (snd (@maybe_release W B r)) = [].
+Proof.
+  unfold maybe_release.
+  destruct (negb (r_outer r) && negb (r_released r) && match r_wsubs r with [] => true | _ => false end);
+    cbn [snd]; [|reflexivity].
+  rewrite hobs_app.
+  assert (H1 : forall l, hobs (map (@OUnsub W B) l) = []) by (induction l; auto).
+  assert (H2 : forall l, hobs (map (@OCancel W B) l) = []) by (induction l; auto).
+  now rewrite H1, H2.
+Qed.
+Lemma hobs_wins (e : ev W) (q : list nat) : forall r : rstate W,
+  hobs (snd (apply_cmds (B:=B) imm r (map (fun g => CWin g e) q))) = [].
+Proof.
+  induction q as [|g t IH]; intros r; [reflexivity|]. cbn [map apply_cmds apply_cmd].
+  destruct (wterm_of g (r_wterm r)).
+  - specialize (IH r). destruct (apply_cmds imm r _) as [r2 o2]. exact IH.
+  - destruct (is_terminal e).
+    + match goal with |- context [maybe_release ?r1] =>
+        pose proof (hobs_release r1) as Hm; destruct (maybe_release r1) as [r2 o2] end.
+      specialize (IH r2). destruct (apply_cmds imm r2 _) as [r3 o3]. cbn [snd] in *.
+      now rewrite !hobs_app, hobs_repeat, Hm, IH.
+    + specialize (IH r). destruct (apply_cmds imm r _) as [r3 o3]. cbn [snd] in *.
+      now rewrite hobs_app, hobs_repeat, IH.
+Qed.
+Lemma hobs_finish (r : rstate W) f : hobs (snd (@finish W B r f)) = [].
+Proof.
+  destruct f; cbn [finish]; [reflexivity| |]; (destruct (r_outer r); [|reflexivity]);
+    unfold end_outer;
+    match goal with |- context [maybe_release ?r1] =>
+      pose proof (hobs_release r1) as Hm; destruct (maybe_release r1) as [r2 o2] end;
+    cbn [snd hobs flat_map app] in *; exact Hm.
+Qed.
+
+(* the operator state after a boundary input: unchanged, or the handler's *)
+Lemma rstep_state s (r : rstate W) now i :
+  fst (fst (rstep imm m s r now i)) = s \/ fst (fst (rstep imm m s r now i)) = fst (fst (x_step m s now i)).
+Proof.
+  assert (D : forall r0, fst (fst (deliver imm m s r0 now i)) = fst (fst (x_step m s now i))).
+  { intros r0. unfold deliver. destruct (x_step m s now i) as [[s' cs] f].
+    destruct (apply_cmds imm r0 cs) as [r1 o1]. destruct (finish r1 f) as [r2 o2].
+    destruct i as [k e| | | |]; try reflexivity.
+    destruct (is_terminal e && mem k (r_live r2)); reflexivity. }
+  destruct i as [k e|tag| |g|g]; cbn [rstep].
+  - destruct (mem k (r_live r)); [right; apply D|left; reflexivity].
+  - destruct (mem tag (r_timers r)); [right; apply D|left; reflexivity].
+  - destruct (r_outer r); [destruct (end_outer r)|]; left; reflexivity.
+  - destruct (sub_win r g). left. reflexivity.
+  - destruct (mem g (r_wsubs r)); [destruct (maybe_release _)|]; left; reflexivity.
+Qed.
+
+(* an invariant of the handlers is an invariant of every run *)
+Theorem after_state_inv (P : x_state m -> Prop) :
+  (forall s now i, P s -> P (fst (fst (x_step m s now i)))) ->
+  forall ins s (r : rstate W), P s -> P (fst (after imm m s r ins)).
+Proof.
+  intros Hstep. induction ins as [|[now i] rest IH]; intros s r Hs; [exact Hs|]. cbn [after].
+  pose proof (rstep_state s r now i) as Hc. destruct (rstep imm m s r now i) as [[s' r'] o]. cbn [fst] in Hc.
+  apply IH. destruct Hc as [->| ->]; [exact Hs|apply Hstep; exact Hs].
+Qed.
+
+Lemma run_from_cons s (r : rstate W) k now i rest :
+  run_from imm m s r k ((now, i) :: rest)
+  = (map (fun x => (k, x)) (snd (rstep imm m s r now i))
+     ++ fst (run_from imm m (fst (fst (rstep imm m s r now i))) (snd (fst (rstep imm m s r now i))) (S k) rest),
+     snd (run_from imm m (fst (fst (rstep imm m s r now i))) (snd (fst (rstep imm m s r now i))) (S k) rest)).
+Proof.
+  cbn [run_from]. destruct (rstep imm m s r now i) as [[s' r'] o]. cbn [fst snd].
+  destruct (run_from imm m s' r' (S k) rest). reflexivity.
+Qed.
+
+Lemma run_unfold ins :
+  run imm m ins
+  = (map (fun x => (0%nat, x)) (start_obs imm m)
+     ++ fst (run_from imm m (fst (start_state imm m)) (snd (start_state imm m)) 1 ins),
+     snd (run_from imm m (fst (start_state imm m)) (snd (start_state imm m)) 1 ins)).
+Proof. unfold run. destruct (run_from imm m _ _ 1 ins). reflexivity. Qed.
 End Facts.
+
+Lemma wevents_app {W B} g (a b : list (nat * obs W B)) : wevents g (a ++ b) = wevents g a ++ wevents g b.
+Proof. unfold wevents. apply flat_map_app. Qed.
+
+Lemma wevents_tag {W B} g k (o : list (obs W B)) : wevents g (map (fun x => (k, x)) o) = wobs g o.
+Proof.
+  unfold wevents, wobs. induction o as [|x t IH]; [reflexivity|]. cbn [map flat_map snd]. now rewrite IH.
+Qed.
+
+Lemma hands_app {W B} (a b : list (nat * obs W B)) : hands (a ++ b) = hands a ++ hands b.
+Proof. unfold hands. apply flat_map_app. Qed.
+
+Lemma hands_tag {W B} k (o : list (obs W B)) : hands (map (fun x => (k, x)) o) = hobs o.
+Proof.
+  unfold hands, hobs. induction o as [|x t IH]; [reflexivity|]. cbn [map flat_map snd]. now rewrite IH.
+Qed.
